@@ -1104,6 +1104,19 @@ func runCmdScenario(c *core.Ctx, n *cmdNode, s *scenario) cmdRun {
 			if !ok || !fn.Exported() {
 				continue
 			}
+			// an entry point does work and reports an error (or nothing); an exported helper that only computes a value from
+			// scalars (a predicate on an option's spelling, a constant's accessor) is interpreted from its source
+			if sig := fn.Type().(*types.Signature); errResultIndex(sig) < 0 && sig.Results().Len() > 0 {
+				pure := true
+				for i := 0; i < sig.Params().Len(); i++ {
+					if _, isBasic := sig.Params().At(i).Type().Underlying().(*types.Basic); !isBasic {
+						pure = false
+					}
+				}
+				if pure {
+					continue
+				}
+			}
 			rel, name := rel, name
 			ext(fn.FullName(), func(_ eval.Value, a []eval.Value) eval.Value {
 				run.calls++
